@@ -21,6 +21,8 @@ def run(ctx):
         streams.append((parts, b"".join(f for _, f in parts)))
     for _ in range(40 if ctx.quick() else 400):
         streams.append((None, rl.garbage_stream(rng)))
+    seen = set()
+    streams = [(pt, st) for pt, st in streams if not (st in seen or seen.add(st))]      # one configuration per distinct stream
     cases = []
     for parts, s in streams:
         qe = rng.randrange(2)
